@@ -11,6 +11,7 @@
 package c13
 
 import (
+	"strconv"
 	"strings"
 
 	"verifharness/internal/core"
@@ -40,7 +41,7 @@ func init() {
 			}
 			return changed >= 3 && noop >= 1
 		},
-		Rule:     "op sequences on two DList[int] (all Push/Insert/Move/Remove forms, node-inserting forms with detached nodes, PushBackDList/PushFrontDList incl. onto itself; handles 60% live / 25% removed / 15% of the other list) or on one SList[int] (index ops with indices -1..len+1, Len/Front/Back/Next observers incl. Next of removed nodes); non-trivial = at least three operations changed a list and at least one mutator was a no-op (stale/foreign handle, out-of-range index, move onto itself); distinct by hash of the op list",
+		Rule:     "op sequences on two DList[int] (all Push/Insert/Move/Remove forms, node-inserting forms with detached nodes, PushBackDList/PushFrontDList incl. onto itself; handles 60% live / 25% removed / 15% of the other list) or on one SList[int] (index ops with indices -1..len+1 and, one in eight, huge ones: ±2^31±j, ±2^32±j, ±2^33+j, MaxInt-j, MinInt+j; Len/Front/Back/Next observers incl. Next of removed nodes); non-trivial = at least three operations changed a list and at least one mutator was a no-op (stale/foreign handle, out-of-range index, move onto itself); distinct by hash of the op list",
 		Classify: classify,
 		Parallel: true,
 		Assumptions: []string{
@@ -122,6 +123,16 @@ func classify(c core.Case, out []string) []string {
 		case isMutator(c.Lines[i]) && dumpOf(out[i]) == dumpOf(out[i-1]):
 			lab += ":noop"
 		}
+		if kind(c) == "slist" {
+			// index arguments beyond 32 bits (get/rm: 1st; ins/insn: 1st; swap: both)
+			nidx := map[string]int{"get": 1, "rm": 1, "ins": 1, "insn": 1, "swap": 2}[t[0]]
+			for k := 1; k <= nidx && k < len(t); k++ {
+				if x, err := strconv.Atoi(t[k]); err == nil && (x >= 1<<31-8 || x <= -(1<<31)+8) {
+					ls = append(ls, "s:"+t[0]+":huge-index")
+					break
+				}
+			}
+		}
 		if (t[0] == "pbl" || t[0] == "pfl") && len(t) == 3 && t[1] == t[2] {
 			lab += ":self"
 		}
@@ -145,6 +156,8 @@ func corpus() []core.Case {
 		{Lines: []string{"@ C13 dlist z z", "pbl A A", "pfl A A", "pb A 1", "pbl A A", "pfl A A", "len A", "mb A 5 4", "ma A 4 5", "mtb A 3", "mtf A 5", "mb A 3 5", "ma A 5 3", "mb A 4 4", "pfl B A", "pbl B B", "len B", "next 3", "prev 5", "rm A 4", "next 4", "prev 4", "rm B 4"}},
 		// SList: observers at sizes 0,1; Next of a removed node is nil and the node can be pushed back again
 		{Lines: []string{"@ C13 slist", "len", "front", "back", "pb 5", "front", "back", "next 0", "pb 6", "pb 7", "next 0", "rm 1", "next 1", "next 0", "pbn 1", "next 2", "next 1", "rmf", "next 0", "insn 1 0", "swap 0 2", "swap 2 0", "swap 1 1", "swap 0 3", "ins 3 8", "ins 4 9", "rm 4", "back", "len"}},
+		// SList: indices that a 32-bit or unsigned range test would accept (k*2^32 + j, ±2^31, int range ends)
+		{Lines: []string{"@ C13 slist", "pb 1", "pb 2", "pb 3", "get 4294967296", "get -4294967296", "get 4294967297", "get -4294967295", "get 2147483648", "get -2147483648", "get 8589934593", "get 9223372036854775807", "get -9223372036854775808", "swap 1 4294967296", "swap -4294967294 0", "swap 4294967296 4294967298", "swap 0 -9223372036854775808", "rm -4294967296", "rm 4294967297", "rm -9223372036854775807", "rm 8589934592", "ins 4294967296 7", "ins -4294967295 8", "ins -9223372036854775808 9", "ins 9223372036854775807 6", "new 5", "insn -4294967294 7", "rm 1", "insn 4294967297 1", "len"}},
 		// SList: head/tail bookkeeping at sizes 0,1,2
 		{Lines: []string{"@ C13 slist", "rmf", "rm 0", "get 0", "pb 1", "rm 0", "pf 2", "rmf", "ins 5 3", "ins -1 4", "ins 1 5", "rm 2", "rm 1", "rm 0", "swap 0 0"}},
 		{Lines: []string{"@ C13 slist", "pb 1", "pb 2", "pb 3", "swap 0 2", "swap 2 1", "swap 1 3", "swap -1 0", "rm 2", "pb 4", "rm 0", "pf 5", "get 2", "get 3", "get -1", "new 9", "insn 1 5", "rm 1", "pbn 5", "rm 3", "pfn 5"}},
